@@ -11,7 +11,7 @@ for i, a in enumerate(sys.argv):
     if a == "--checks":
         checks_override = sys.argv[i + 1].split(","); args = [x for x in args if x != sys.argv[i + 1]]
 root = "/verif/seeded"
-ids = args or sorted(d for d in os.listdir(root) if os.path.isdir(os.path.join(root, d)))
+ids = args or sorted(d for d in os.listdir(root) if os.path.isfile(os.path.join(root, d, "meta.json")))
 assert subprocess.run(["git", "-C", "/repo", "diff", "--quiet"]).returncode == 0, "/repo has uncommitted changes"
 for sid in ids:
     d = os.path.join(root, sid)
